@@ -440,4 +440,79 @@ theorem resolveFields_noPanic (cfg : Cfg) (hg : cfg.arrayGuard = true) (re : Reg
         · exact resolveFields_noPanic cfg hg re pd rest acc
         · rfl
         · next s heq => rw [heq] at h1; simp [Res.isPanic] at h1
+/-! ### definitions with nil entries -/
+
+theorem pdMatchRaw_noPanic (cfg : Cfg) (hg : cfg.arrayGuard = true) (hm : cfg.maxNilCheck = true) (hn : cfg.nilCheck = true)
+    (re : Regex) (r : RawPD) (w : List Cred) : (pdMatchRaw cfg re r w).isPanic = false := by
+  unfold pdMatchRaw
+  split
+  · exact pdMatch_noPanic cfg hg hm re _ w
+  · simp [hn, Res.isPanic]
+
+theorem credentialsRequiredRawGo_noPanic (cfg : Cfg) (hn : cfg.nilCheck = true) :
+    ∀ ss, (credentialsRequiredRawGo cfg ss).isPanic = false
+  | [] => by unfold credentialsRequiredRawGo; rfl
+  | none :: ss => by
+    unfold credentialsRequiredRawGo
+    simp only [hn, if_true]
+    exact credentialsRequiredRawGo_noPanic cfg hn ss
+  | some s :: ss => by
+    unfold credentialsRequiredRawGo
+    have ih := credentialsRequiredRawGo_noPanic cfg hn ss
+    split
+    · rfl
+    · split
+      · split
+        · rfl
+        · exact ih
+      · simp only [Bool.and_false, Bool.false_eq_true, if_false]
+        exact ih
+
+theorem credentialsRequiredRaw_noPanic (cfg : Cfg) (hn : cfg.nilCheck = true) (r : RawPD) :
+    (credentialsRequiredRaw cfg r).isPanic = false := by
+  unfold credentialsRequiredRaw
+  have h := credentialsRequiredRawGo_noPanic cfg hn r.srs
+  split
+  · rfl
+  · rfl
+  · rfl
+  · next s heq => rw [heq] at h; simp [Res.isPanic] at h
+
+theorem firstWalletRaw_noPanic (cfg : Cfg) (hg : cfg.arrayGuard = true) (hm : cfg.maxNilCheck = true) (hn : cfg.nilCheck = true)
+    (re : Regex) (r : RawPD) : ∀ ws, (firstWalletRaw cfg re r ws).isPanic = false
+  | [] => by unfold firstWalletRaw; rfl
+  | w :: ws => by
+    unfold firstWalletRaw
+    have h1 := pdMatchRaw_noPanic cfg hg hm hn re r w
+    split
+    · rfl
+    · exact firstWalletRaw_noPanic cfg hg hm hn re r ws
+    · next s heq => rw [heq] at h1; simp [Res.isPanic] at h1
+
+theorem buildRaw_noPanic (cfg : Cfg) (hg : cfg.arrayGuard = true) (hm : cfg.maxNilCheck = true) (hn : cfg.nilCheck = true)
+    (re : Regex) (r : RawPD) (ws : List (List Cred)) (hne : ws ≠ []) : (buildRaw cfg re r ws).isPanic = false := by
+  unfold buildRaw
+  have h1 := firstWalletRaw_noPanic cfg hg hm hn re r ws
+  have h2 := credentialsRequiredRaw_noPanic cfg hn r
+  split
+  · rfl
+  · split
+    · rfl
+    · split
+      · next h => cases ws with
+        | nil => exact absurd rfl hne
+        | cons _ _ => simp at h
+      · rfl
+    · rfl
+    · next s heq => rw [heq] at h2; simp [Res.isPanic] at h2
+  · rfl
+  · next s heq => rw [heq] at h1; simp [Res.isPanic] at h1
+
+theorem resolveFieldsRaw_noPanic (cfg : Cfg) (hg : cfg.arrayGuard = true) (hn : cfg.nilCheck = true)
+    (re : Regex) (r : RawPD) (cm : List (String × Cred)) : (resolveFieldsRaw cfg re r cm).isPanic = false := by
+  unfold resolveFieldsRaw
+  split
+  · exact resolveFields_noPanic cfg hg re _ cm []
+  · simp [hn, Res.isPanic]
+
 end Nuts.C12
